@@ -17,6 +17,7 @@ structure DState where
   reg : RegState := {}
   life : LifeState := {}
   metaDead : Bool := false
+  fwdClosing : Bool := false
 
 def stepLine (st : DState) (line : String) : DState × String :=
   match (line.trimAscii.toString.splitOn " ").filter (· ≠ "") with
@@ -43,7 +44,10 @@ def stepLine (st : DState) (line : String) : DState × String :=
                 match metaCmd st.metaDead cmd args with
                 | some (d, out) => ({ st with metaDead := d }, out)
                 | none =>
-                  match idCmd cmd with
+                  match fwdCmd st.fwdClosing cmd with
+                  | some (c, out) => ({ st with fwdClosing := c }, out)
+                  | none =>
+                  match (idCmd cmd).orElse (fun _ => negCmd cmd args) with
                   | some out => (st, out)
                   | none => (st, "bad-op")
 
